@@ -1,43 +1,325 @@
-import Aiorpcx.C08.Tickets
-import Aiorpcx.C08.Closers
-/-! The three invariant groups together are preserved by every event, hence hold in every
+import Aiorpcx.C08.Inv
+/-! Every event of the C08 lifecycle model preserves the invariants, hence they hold in every
 reachable state. -/
 namespace Aiorpcx.C08
 
-structure Inv (s : S) : Prop where
-  h : HInv s
-  t : TInv s
-  c : CInv s
+/-! ## the clock tick -/
 
-theorem init_inv (rt : Nat) (st : Bool) (hrt : 0 < rt) : Inv (init rt st) := by
-  refine ⟨?_, ?_, ?_⟩
-  · refine { hook := rfl, lostClosing := (by intro h; cases h), loop := rfl,
-             closedThen := (by intro h; cases h), noRun := (by intro h; cases h),
-             react := ?_, closerH := ?_, reactLt := ?_, closerLt := ?_,
-             closedIf := (by intro h; cases h) } <;> intro x hx <;> cases hx
-  · refine { pos := hrt, pendingLe := ?_, settled := (by intro h; cases h), afterFlag := ?_,
-             noCancel := ?_, timedAt := ?_, pendingLt := ?_ }
-    · intro x hx; cases hx
-    · intro x hx; cases hx
-    · intro _ x hx; cases hx
-    · intro x hx; cases hx
-    · intro x hx; cases hx
-  · refine { closedAll := (by intro h; cases h), openNone := ?_, waitingLe := ?_, aborted := ?_,
-             closersClosing := ?_, returnedAt := ?_, abortsPast := ?_, abortsLost := ?_,
-             waitingLt := ?_, startLe := ?_, closedAtNone := fun _ => rfl,
-             closedAtSome := (by intro T hT; cases hT) }
-    · intro _ x hx; cases hx
-    · intro x hx; cases hx
-    · intro x hx; cases hx
-    · intro x hx; cases hx
-    · intro x hx; cases hx
-    · intro x hx; cases hx
-    · intro x hx; cases hx
-    · intro h; exact absurd rfl h
-    · intro x hx; cases hx
+theorem anyDue_false {s : S} (h : s.anyDue = false) :
+    (∀ c ∈ s.closers, ¬ (c.st = .waiting ∧ c.deadline ≤ s.now)) := by
+  unfold S.anyDue at h
+  simp only [Bool.or_eq_false_iff, List.any_eq_false] at h
+  intro c hc ⟨h1, h2⟩
+  have := h.1 c hc
+  simp [closerDue, h1, h2] at this
 
-theorem Inv.lost_closing {s : S} (i : Inv s) (hl : s.lost = true) : s.closing = true :=
-  i.h.lostClosing hl
+/-- the state in the middle of a tick: the clock has moved, every timer due has fired, the
+limiter has handed out its slots; what is left to do is the abort (if some `close()` was cut
+short) and `settle` -/
+def S.fired (s : S) : S :=
+  let s1 : S := { s with now := s.now + 1 }
+  S.promote
+    { s1 with tickets := s1.tickets.map (expireTicket s1.now),
+              handlers := s1.handlers.map (fireHandler s1.now),
+              closers := s1.closers.map (abortCloser s1.now) }
+
+theorem tick_eq (s : S) :
+    s.tick = if ({ s with now := s.now + 1 } : S).anyDue then s.fired.doAbort.settle else s.fired.settle := rfl
+
+theorem fired_now (s : S) : s.fired.now = s.now + 1 := rfl
+theorem fired_lost (s : S) : s.fired.lost = s.lost := rfl
+theorem fired_handlers (s : S) : s.fired.handlers = s.handlers.map (fireHandler (s.now + 1)) := rfl
+theorem fired_closers (s : S) : s.fired.closers = s.closers.map (abortCloser (s.now + 1)) := rfl
+
+/-- the groups of the fired state that do not depend on what the loss will be -/
+theorem fired_hi {s : S} (i : Inv s) :
+    HI s.fired.now s.fired.down s.fired.closing s.fired.lost s.fired.closedEvent s.fired.hookRuns
+      s.fired.procTimeout s.fired.handlers := by
+  refine ⟨i.h.ptPos, i.h.hook, i.h.lostDown, i.h.lostClosing, ?_, ?_⟩
+  · intro hce
+    refine ⟨(i.h.closedThen hce).1, ?_⟩
+    show ∀ h ∈ s.handlers.map (fireHandler (s.now + 1)), h.status = .done
+    exact forall_map (i.h.closedThen hce).2 fun _ hd => fireHandler_done hd
+  · show ∀ h ∈ s.handlers.map (fireHandler (s.now + 1)), HOk (s.now + 1) s.down s.closing h
+    exact forall_map i.h.ok fun _ hk => fireHandler_ok hk
+
+theorem fired_ti {s : S} (i : Inv s) :
+    TI s.fired.now s.fired.down s.fired.reqTimeout s.fired.tickets := by
+  refine ⟨i.t.pos, ?_⟩
+  show ∀ t ∈ promoteList (s.now + 1) s.reqTimeout _ (s.tickets.map (expireTicket (s.now + 1))),
+    TOk (s.now + 1) s.down t
+  exact promoteList_ok i.t.pos (forall_map i.t.ok fun _ hk => expireTicket_ok hk)
+
+/-- the tasks inside `close()` after the timers fired, judged against the instant of loss `la'`
+as it will be after the tick -/
+theorem fired_ci {s : S} (i : Inv s) (la' : Option Nat) (hm : ∀ t, s.lostAt = some t → la' = some t)
+    (hl : ∀ c ∈ s.closers, c.st = .waiting → c.deadline ≤ s.now + 1 →
+      ∃ t, la' = some t ∧ t ≤ c.deadline) :
+    CI (s.now + 1) s.closing s.closedEvent s.closedAt la' s.fired.closers := by
+  refine ⟨?_, ?_, i.c.caNone, ?_⟩
+  · show ∀ c ∈ s.closers.map (abortCloser (s.now + 1)), COk (s.now + 1) s.closedEvent s.closedAt la' c
+    intro c hc
+    obtain ⟨x, hx, rfl⟩ := List.mem_map.mp hc
+    exact abortCloser_ok (i.c.ok x hx) hm (hl x hx)
+  · show s.closers.map (abortCloser (s.now + 1)) ≠ [] → s.closing = true
+    intro hne; exact i.c.closersClosing (by simpa using hne)
+  · intro T hT
+    obtain ⟨h1, h2, t, ht, h3⟩ := i.c.caSome T hT
+    exact ⟨h1, Nat.le_succ_of_le h2, t, hm t ht, h3⟩
+
+theorem fired_li {s : S} (i : Inv s) :
+    LI (s.now + 1) s.lost s.stalled s.lostAt s.lostBy s.abortedAt :=
+  ⟨i.l.laNone, fun t ht => ⟨(i.l.laSome t ht).1, Nat.le_succ_of_le (i.l.laSome t ht).2⟩,
+   i.l.lbNone, i.l.lbSome, i.l.aborted, i.l.byAbort, i.l.byGraceful⟩
+
+theorem tick_inv {s : S} (i : Inv s) : Inv s.tick := by
+  rw [tick_eq]
+  rcases Bool.eq_false_or_eq_true s.lost with hl | hl
+  · -- already lost: an abort changes nothing
+    obtain ⟨t, ht, htn⟩ := i.l.la_some hl
+    have i0 : Inv0 s.fired :=
+      { fixed := i.fixed, h := fired_hi i, t := fired_ti i
+        c := fired_ci i s.lostAt (fun _ h => h) (by
+          intro c hc hw _
+          have := (i.c.ok c hc)
+          unfold COk at this
+          simp only [hw] at this
+          exact ⟨t, ht, by omega⟩)
+        l := fired_li i }
+    have : s.fired.doAbort = s.fired := doAbort_of_lost (s := s.fired) hl
+    rw [this]
+    split <;> exact settle_inv i0
+  · split
+    · -- somebody's wait inside close() is cut short now: abort, loss, teardown
+      have hla := i.l.la_none hl
+      have hi := fired_hi i
+      rw [fired_lost, hl] at hi
+      have l0 := fired_li i
+      rw [hl] at l0
+      have hce := i.h.ce_false hl
+      refine settle_inv (doAbort_inv_of_not_lost (s := s.fired) hl i.fixed hi (fired_ti i) ?_ l0).toInv0
+      have c0 := fired_ci i (some (s.now + 1)) (by rw [hla]; intro t h; cases h) (by
+        intro c hc hw hd
+        have := (i.c.ok c hc)
+        unfold COk at this
+        simp only [hw] at this
+        exact ⟨_, rfl, by omega⟩)
+      exact ⟨c0.ok, fun _ => rfl, c0.caNone, c0.caSome⟩
+    · rename_i hnd
+      have hnd : ({ s with now := s.now + 1 } : S).anyDue = false := by simpa using hnd
+      have hno := anyDue_false hnd
+      refine settle_inv
+        { fixed := i.fixed, h := fired_hi i, t := fired_ti i
+          c := fired_ci i s.lostAt (fun _ h => h) (by
+            intro c hc hw hd
+            exact absurd ⟨hw, hd⟩ (hno c hc))
+          l := fired_li i }
+
+theorem advance_inv (n : Nat) : ∀ {s : S}, Inv s → Inv (s.advance n) := by
+  induction n with
+  | zero => intro s h; exact h
+  | succ n ih => intro s h; exact ih (tick_inv h)
+
+/-! ## events -/
+
+theorem Inv.not_down_facts {s : S} (i : Inv s) (hd : s.down = false) :
+    s.lost = false ∧ s.closedEvent = false := by
+  have hl := i.h.not_lost_of_not_down hd
+  exact ⟨hl, i.h.ce_false hl⟩
+
+/-- a new handler (not one blocked in `close()`) on a connection that is up -/
+theorem addHandler_inv {s : S} (i : Inv s) (hd : s.down = false) (x : Handler)
+    (hx : HOk s.now false s.closing x) : Inv { s with handlers := s.handlers ++ [x] } := by
+  obtain ⟨_, hce⟩ := i.not_down_facts hd
+  refine { fixed := i.fixed, h := ?_, t := i.t, c := i.c, l := i.l, settled := ?_ }
+  · refine ⟨i.h.ptPos, i.h.hook, i.h.lostDown, i.h.lostClosing, ?_, ?_⟩
+    · show s.closedEvent = true → _
+      rw [hce]; intro h; cases h
+    · exact forall_append_one i.h.ok (by rw [hd]; exact hx)
+  · intro h; rw [hd] at h; cases h
+
+/-- a new handler that has just called `transport.close()`: the state with `closing` set -/
+theorem addCloserH_inv {s : S} (i : Inv s) (hd : s.down = false) (x : Handler)
+    (hx : HOk s.now false true x) :
+    Inv { s with handlers := s.handlers ++ [x], closing := true } := by
+  have := addHandler_inv (s := { s with closing := true }) i.setClosing hd x hx
+  exact this
+
+theorem startCloser_inv {s : S} (i : Inv s) (hd : s.down = false) (hc : s.closing = false)
+    (j d pdl : Nat) (im : Bool) (hdl : im = false → s.now < d ∧ d ≤ pdl) :
+    Inv (s.startCloser j d pdl im) := by
+  unfold S.startCloser
+  cases im with
+  | true =>
+    simp only [↓reduceIte]
+    have i1 : Inv { s with handlers := s.handlers ++ [⟨j, .closer d, .done, pdl⟩] } :=
+      addHandler_inv i hd _ (by simp [HOk])
+    exact doAbort_inv (transportClose_inv i1)
+  | false =>
+    simp only [Bool.false_eq_true, ↓reduceIte]
+    obtain ⟨h1, h2⟩ := hdl rfl
+    have i1 : Inv { s with handlers := s.handlers ++ [⟨j, .closer d, .run, pdl⟩], closing := true } :=
+      addCloserH_inv i hd _ (by simp [HOk]; exact ⟨h1, h2⟩)
+    have hl := (i.not_down_facts hd).1
+    rcases transportClose_cases { s with handlers := s.handlers ++ [⟨j, .closer d, .run, pdl⟩] } with
+      ⟨h, _⟩ | ⟨_, _, e⟩ | ⟨_, hst, e⟩
+    · rw [hc] at h; cases h
+    · rw [e]; exact i1
+    · rw [e]
+      have := lose_inv i1 .graceful (fun _ => hst) (by simp)
+      exact this
+
+theorem startHandler_inv {s : S} (i : Inv s) (hd : s.down = false) (hc : s.closing = false)
+    (j : Nat) (k : HKind) : Inv (s.startHandler j k) := by
+  have hpt := i.h.ptPos
+  unfold S.startHandler
+  cases k with
+  | quick => exact addHandler_inv i hd _ (by simp [HOk])
+  | slow => exact addHandler_inv i hd _ (by simp [HOk]; omega)
+  | stubborn r => exact addHandler_inv i hd _ (by simp [HOk]; omega)
+  | aborter => exact doAbort_inv (addHandler_inv i hd _ (by simp [HOk]))
+  | thenClose fa => exact addHandler_inv i hd _ (by simp [HOk]; omega)
+  | closer fa =>
+    simp only []
+    apply startCloser_inv i hd hc
+    intro hfa
+    have hfa : fa ≠ 0 := by simpa using hfa
+    unfold closerDeadline
+    simp only [i.fixed, ↓reduceIte]
+    omega
+
+theorem finishHandler_of_down {i n : Nat} {c : Bool} {h : Handler} (hk : HOk n true c h) :
+    finishHandler i h = h := by
+  unfold finishHandler HOk at *
+  grind
+
+theorem handlerFinish_inv {s : S} (i : Inv s) (j : Nat) :
+    Inv { s with handlers := s.handlers.map (finishHandler j) } := by
+  refine { fixed := i.fixed, h := ?_, t := i.t, c := i.c, l := i.l, settled := ?_ }
+  · refine ⟨i.h.ptPos, i.h.hook, i.h.lostDown, i.h.lostClosing, ?_, ?_⟩
+    · intro hce
+      exact ⟨(i.h.closedThen hce).1, forall_map (i.h.closedThen hce).2 fun _ hd => finishHandler_done hd⟩
+    · exact forall_map i.h.ok fun _ hk => finishHandler_ok hk
+  · intro hd hall
+    apply i.settled hd
+    intro x hx
+    have hk := i.h.ok x hx
+    rw [hd] at hk
+    have := hall (finishHandler j x) (List.mem_map.mpr ⟨x, hx, rfl⟩)
+    rwa [finishHandler_of_down hk] at this
+
+/-- a waiting handler goes on to call `close()`: the state with `closing` set -/
+theorem resume_inv {s : S} (i : Inv s) (j : Nat) :
+    Inv { s with handlers := s.handlers.map (toCloser s.fixed s.now j), closing := true } := by
+  have e : toCloser s.fixed s.now j = toCloser true s.now j := by rw [i.fixed]
+  rw [e]
+  refine { fixed := i.fixed, h := ?_, t := i.t, c := ⟨i.c.ok, fun _ => rfl, i.c.caNone, i.c.caSome⟩,
+           l := i.l, settled := ?_ }
+  · refine ⟨i.h.ptPos, i.h.hook, i.h.lostDown, fun _ => rfl, ?_, ?_⟩
+    · intro hce
+      exact ⟨(i.h.closedThen hce).1, forall_map (i.h.closedThen hce).2 fun _ hd => toCloser_done hd⟩
+    · exact forall_map i.h.ok fun _ hk => toCloser_ok hk
+  · intro hd hall
+    apply i.settled hd
+    intro x hx
+    have hk := i.h.ok x hx
+    rw [hd] at hk
+    have := hall (toCloser true s.now j x) (List.mem_map.mpr ⟨x, hx, rfl⟩)
+    rwa [toCloser_of_down hk] at this
+
+theorem handlerFinish_step_inv {s : S} (i : Inv s) (j : Nat) : Inv (step s (.handlerFinish j)) := by
+  unfold step
+  simp only []
+  split
+  · exact handlerFinish_inv i j
+  · rename_i fa _
+    have i1 := resume_inv i j
+    have tc : Inv (S.transportClose { s with handlers := s.handlers.map (toCloser s.fixed s.now j) }) := by
+      rcases transportClose_cases { s with handlers := s.handlers.map (toCloser s.fixed s.now j) } with
+        ⟨hc, e⟩ | ⟨_, _, e⟩ | ⟨_, hst, e⟩ <;> rw [e]
+      · have : ({ s with handlers := s.handlers.map (toCloser s.fixed s.now j) } : S) =
+            { s with handlers := s.handlers.map (toCloser s.fixed s.now j), closing := true } := by
+          have hc' : s.closing = true := hc
+          cases s; simp_all
+        rw [this]; exact i1
+      · exact i1
+      · exact lose_inv i1 .graceful (fun _ => hst) (by simp)
+    split
+    · exact doAbort_inv tc
+    · exact tc
+
+theorem crash_inv {s : S} (i : Inv s) (j : Nat) : Inv (s.crash j) := by
+  unfold S.crash
+  split
+  · exact i
+  · rename_i hg
+    simp only [Bool.or_eq_true, not_or, Bool.not_eq_true, Bool.not_eq_true'] at hg
+    have hd : s.down = false := hg.1
+    obtain ⟨hl, hce⟩ := i.not_down_facts hd
+    have hla := i.l.la_none hl
+    -- the groups of the torn-down state
+    have hh : HI s.now true s.closing false s.closedEvent (s.hookRuns + 1) s.procTimeout
+        ((s.handlers.map (crashHandler j)).map (cancelHandler s.now)) := by
+      refine ⟨i.h.ptPos, ?_, fun _ => rfl, (fun h => by cases h), ?_, ?_⟩
+      · have := i.h.hook; simp [hd] at this; simp [this]
+      · rw [hce]; intro h; cases h
+      · refine forall_map (forall_map i.h.ok fun _ hk => crashHandler_ok hk) ?_
+        intro x hk
+        rw [hd] at hk
+        exact cancelHandler_ok hk
+    have ht : TI s.now true s.reqTimeout (s.tickets.map cancelTicket) :=
+      ⟨i.t.pos, forall_map i.t.ok fun _ hk => cancelTicket_ok (by rw [hd] at hk; exact hk)⟩
+    have i0 : Inv0 ({ s with handlers := s.handlers.map (crashHandler j) } : S).teardown :=
+      { fixed := i.fixed, h := by rw [hl]; exact hh, t := ht, c := i.c, l := i.l }
+    dsimp only
+    split
+    · refine settle_inv (doAbort_inv_of_not_lost
+        (s := ({ s with handlers := s.handlers.map (crashHandler j) } : S).teardown)
+        hl i.fixed hh ht ?_ (by have := i.l; rw [hl] at this; exact this)).toInv0
+      exact ⟨forall_imp i.c.ok fun _ hk => hk.la_mono (by rw [hla]; intro t h; cases h),
+             fun _ => rfl, i.c.caNone,
+             fun T hT => by have := (i.c.caSome T hT).1; simp [hce] at this⟩
+    · exact settle_inv i0
+
+theorem outgoing_inv {s : S} (i : Inv s) (k : Nat) : Inv (step s (.outgoing k)) := by
+  have hrt := i.t.pos
+  unfold step
+  simp only []
+  split
+  · exact i
+  · split
+    · refine { fixed := i.fixed, h := i.h, t := ⟨i.t.pos, ?_⟩, c := i.c, l := i.l, settled := i.settled }
+      refine forall_append_one i.t.ok ?_
+      unfold TOk
+      cases hd : s.down <;> simp <;> omega
+    · refine { fixed := i.fixed, h := i.h, t := ⟨i.t.pos, ?_⟩, c := i.c, l := i.l, settled := i.settled }
+      refine forall_append_one i.t.ok ?_
+      unfold TOk
+      cases hd : s.down <;> simp
+
+theorem answer_inv {s : S} (i : Inv s) (k : Nat) : Inv (step s (.answer k)) := by
+  unfold step
+  simp only []
+  split
+  · exact i
+  · rename_i hg
+    simp only [Bool.or_eq_true, not_or, Bool.not_eq_true] at hg
+    apply promote_inv
+    refine { fixed := i.fixed, h := i.h, t := ⟨i.t.pos, ?_⟩, c := i.c, l := i.l, settled := i.settled }
+    refine forall_map i.t.ok ?_
+    intro t hk
+    rw [hg.2] at hk ⊢
+    exact answerTicket_ok hk
+
+/-- a new task enters `close()`: the state just after it is registered, with `closing` set and
+judged against the instant of loss `la'` -/
+theorem addCloser_ci {s : S} (i : Inv s) (la' : Option Nat) (hm : ∀ t, s.lostAt = some t → la' = some t)
+    (x : Closer) (hx : COk s.now s.closedEvent s.closedAt la' x) :
+    CI s.now true s.closedEvent s.closedAt la' (s.closers ++ [x]) :=
+  ⟨forall_append_one (forall_imp i.c.ok fun _ hk => hk.la_mono hm) hx, fun _ => rfl, i.c.caNone,
+   fun T hT => by
+     obtain ⟨h1, h2, t, ht, h3⟩ := i.c.caSome T hT
+     exact ⟨h1, h2, t, hm t ht, h3⟩⟩
 
 theorem appClose_inv {s : S} (i : Inv s) (c fa : Nat) : Inv (step s (.appClose c fa)) := by
   unfold step
@@ -45,34 +327,97 @@ theorem appClose_inv {s : S} (i : Inv s) (c fa : Nat) : Inv (step s (.appClose c
   split
   · exact i
   · split
-    · rename_i hce
-      have hcl : s.closing = true := i.h.lostClosing (i.h.closedThen hce).1
-      exact ⟨i.h.mono rfl rfl id rfl rfl rfl rfl, i.t.mono rfl rfl rfl rfl,
-             appClose_closed_cinv i.c hce hcl c fa⟩
+    · -- closed already: returns at once
+      rename_i hce
+      have hl := (i.h.closedThen hce).1
+      obtain ⟨t, ht, htn⟩ := i.l.la_some hl
+      have hcl := i.h.lostClosing hl
+      obtain ⟨T, hT⟩ : ∃ T, s.closedAt = some T := by
+        cases h : s.closedAt with
+        | none => have := i.c.caNone h; simp [hce] at this
+        | some T => exact ⟨T, rfl⟩
+      obtain ⟨_, hTn, t', ht', htT⟩ := i.c.caSome T hT
+      have i1 : Inv { s with closers := s.closers ++ [⟨c, s.now, s.now + fa, .returned s.now⟩] } := by
+        refine { fixed := i.fixed, h := i.h, t := i.t, c := ?_, l := i.l, settled := i.settled }
+        have := addCloser_ci i s.lostAt (fun _ h => h) ⟨c, s.now, s.now + fa, .returned s.now⟩ (by
+          simp only [COk]
+          refine ⟨Nat.le_refl _, T, hT, by omega, t', ht', by omega⟩)
+        exact ⟨this.ok, fun _ => hcl, this.caNone, this.caSome⟩
+      exact transportClose_inv i1
     · rename_i hce
       have hce : s.closedEvent = false := by simpa using hce
+      have hca : s.closedAt = none := by
+        cases h : s.closedAt with
+        | none => rfl
+        | some T => have := (i.c.caSome T h).1; simp [hce] at this
       split
-      · refine ⟨doAbort_hinv (i.h.mono rfl rfl id rfl rfl rfl rfl),
-                doAbort_tinv (i.t.mono rfl rfl rfl rfl), ?_⟩
-        unfold S.doAbort
-        obtain ⟨h1, h2⟩ := addCloser_cpre i.c hce ⟨c, s.now, s.now, .abortedWaiting⟩
-          (s.aborts ++ [s.now]) (Nat.le_refl _) (Or.inr ⟨rfl, rfl, rfl⟩)
-        exact lose_cinv h1 h2
+      · -- force_after = 0: close(), then abort() in the same instant
+        rename_i hfa
+        rcases Bool.eq_false_or_eq_true s.lost with hl | hl
+        · -- lost already (a handler is still reacting): nothing but the wait
+          obtain ⟨t, ht, htn⟩ := i.l.la_some hl
+          have hcl := i.h.lostClosing hl
+          have i1 : Inv { s with closers := s.closers ++ [⟨c, s.now, s.now, .abortedWaiting⟩] } := by
+            refine { fixed := i.fixed, h := i.h, t := i.t, c := ?_, l := i.l, settled := i.settled }
+            have := addCloser_ci i s.lostAt (fun _ h => h) ⟨c, s.now, s.now, .abortedWaiting⟩ (by
+              simp only [COk]
+              exact ⟨Nat.le_refl _, hce, Nat.le_refl _, t, ht, htn⟩)
+            exact ⟨this.ok, fun _ => hcl, this.caNone, this.caSome⟩
+          exact doAbort_inv (transportClose_inv i1)
+        · have hla := i.l.la_none hl
+          have hm : ∀ t, s.lostAt = some t → some s.now = some t := by rw [hla]; intro t h; cases h
+          have cc := addCloser_ci i (some s.now) hm ⟨c, s.now, s.now, .abortedWaiting⟩ (by
+            simp only [COk]
+            exact ⟨Nat.le_refl _, hce, Nat.le_refl _, _, rfl, Nat.le_refl _⟩)
+          have h0 := i.h
+          rw [hl] at h0
+          have l0 := i.l
+          rw [hl] at l0
+          rcases transportClose_cases
+              { s with closers := s.closers ++ [⟨c, s.now, s.now, .abortedWaiting⟩] } with
+            ⟨hc, e⟩ | ⟨_, _, e⟩ | ⟨_, hst, e⟩ <;> rw [e]
+          · exact doAbort_inv_of_not_lost
+              (s := { s with closers := s.closers ++ [⟨c, s.now, s.now, .abortedWaiting⟩] })
+              hl i.fixed h0 i.t cc l0
+          · exact doAbort_inv_of_not_lost
+              (s := { s with closers := s.closers ++ [⟨c, s.now, s.now, .abortedWaiting⟩],
+                             closing := true })
+              hl i.fixed (h0.closing_mono fun _ => rfl) i.t cc l0
+          · exact doAbort_inv (lose_inv_of_not_lost
+                (s := { s with closers := s.closers ++ [⟨c, s.now, s.now, .abortedWaiting⟩],
+                               closing := true })
+                hl i.fixed (h0.closing_mono fun _ => rfl) rfl i.t cc
+                (l0.lose (fun _ => hst) (Or.inr ⟨by simp, i.l.aa_none hl⟩)))
       · rename_i hfa
-        have hfa : 0 < fa := by
-          have : fa ≠ 0 := by simpa using hfa
-          omega
-        refine ⟨transportClose_hinv (i.h.mono rfl rfl id rfl rfl rfl rfl),
-                transportClose_tinv (i.t.mono rfl rfl rfl rfl), ?_⟩
-        obtain ⟨h1, h2⟩ := addCloser_cpre i.c hce ⟨c, s.now, s.now + fa, .waiting⟩ s.aborts
-          (Nat.le_refl _) (Or.inl ⟨rfl, by show s.now < s.now + fa; omega, rfl⟩)
+        have hfa : fa ≠ 0 := by simpa using hfa
+        have i1 : Inv { s with closers := s.closers ++ [⟨c, s.now, s.now + fa, .waiting⟩],
+                               closing := true } := by
+          have i' := i.setClosing
+          refine { fixed := i.fixed, h := i'.h, t := i.t, c := ?_, l := i.l, settled := i.settled }
+          exact addCloser_ci i s.lostAt (fun _ h => h) ⟨c, s.now, s.now + fa, .waiting⟩ (by
+            simp only [COk]
+            exact ⟨Nat.le_refl _, by omega, hce⟩)
         rcases transportClose_cases
             { s with closers := s.closers ++ [⟨c, s.now, s.now + fa, .waiting⟩] } with
-          ⟨hc, e⟩ | ⟨_, _, e⟩ | ⟨_, _, e⟩ <;> rw [e]
-        · exact { toCPre := h1.mono rfl rfl rfl rfl rfl (fun _ => hc)
-                  abortsLost := i.c.abortsLost, waitingLt := h2 }
-        · exact { toCPre := h1, abortsLost := i.c.abortsLost, waitingLt := h2 }
-        · exact lose_cinv h1 h2
+          ⟨hc, e⟩ | ⟨_, _, e⟩ | ⟨_, hst, e⟩ <;> rw [e]
+        · have : ({ s with closers := s.closers ++ [⟨c, s.now, s.now + fa, .waiting⟩] } : S) =
+              { s with closers := s.closers ++ [⟨c, s.now, s.now + fa, .waiting⟩], closing := true } := by
+            have hc' : s.closing = true := hc
+            cases s; simp_all
+          rw [this]; exact i1
+        · exact i1
+        · exact lose_inv i1 .graceful (fun _ => hst) (by simp)
+
+theorem cancelClose_inv {s : S} (i : Inv s) (c : Nat) : Inv (s.cancelClose c) := by
+  unfold S.cancelClose
+  have i1 : Inv { s with closers := s.closers.map (cancelCloser s.now c) } := by
+    refine { fixed := i.fixed, h := i.h, t := i.t, c := ?_, l := i.l, settled := i.settled }
+    refine ⟨forall_map i.c.ok fun _ hk => cancelCloser_ok hk, ?_, i.c.caNone, i.c.caSome⟩
+    intro hne; exact i.c.closersClosing (by simpa using hne)
+  simp only []
+  split
+  · exact doAbort_inv i1
+  · exact i1
 
 theorem step_inv {s : S} (i : Inv s) (e : Event) : Inv (step s e) := by
   cases e with
@@ -81,50 +426,48 @@ theorem step_inv {s : S} (i : Inv s) (e : Event) : Inv (step s e) := by
     simp only []
     split
     · exact i
-    · rename_i hc
-      simp only [Bool.or_eq_true, not_or, Bool.not_eq_true] at hc
-      exact ⟨startHandler_hinv i.h hc.1.2 hc.1.1 j k, startHandler_tinv i.t j k,
-             startHandler_cinv i.c j k⟩
-  | handlerFinish j =>
+    · rename_i hg
+      simp only [Bool.or_eq_true, not_or, Bool.not_eq_true] at hg
+      exact startHandler_inv i hg.1.2 hg.1.1 j k
+  | replyClose j fa =>
     unfold step
     simp only []
     split
     · exact i
-    · rename_i hl
-      have hl : s.lost = false := by simpa using hl
-      exact ⟨finishHandlers_hinv i.h hl j, i.t.mono rfl rfl rfl rfl, i.c.mono rfl rfl rfl rfl rfl id id⟩
-  | outgoing k =>
-    unfold step
-    simp only []
-    split
-    · exact i
-    · exact ⟨i.h.mono rfl rfl id rfl rfl rfl rfl, outgoing_tinv i.t k, i.c.mono rfl rfl rfl rfl rfl id id⟩
-  | answer k =>
-    unfold step
-    simp only []
-    split
-    · exact i
-    · rename_i hc
-      simp only [Bool.or_eq_true, not_or, Bool.not_eq_true] at hc
-      exact ⟨i.h.mono rfl rfl id rfl rfl rfl rfl, answer_tinv i.t hc.2 k,
-             i.c.mono rfl rfl rfl rfl rfl id id⟩
-  | drop =>
-    unfold step
-    exact ⟨lose_hinv (i.h.mono rfl rfl (fun _ => rfl) rfl rfl rfl rfl),
-           lose_tinv (i.t.mono rfl rfl rfl rfl),
-           lose_cinv (i.c.toCPre.mono rfl rfl rfl rfl rfl (fun _ => rfl)) i.c.waitingLt⟩
+    · rename_i hg
+      simp only [Bool.or_eq_true, not_or, Bool.not_eq_true] at hg
+      apply startCloser_inv i hg.1.2 hg.1.1
+      intro hfa
+      have hfa : fa ≠ 0 := by simpa using hfa
+      omega
+  | handlerFinish j => exact handlerFinish_step_inv i j
+  | handlerCancel j => exact crash_inv i j
+  | outgoing k => exact outgoing_inv i k
+  | answer k => exact answer_inv i k
+  | drop => exact lose_inv i .link (by simp) (by simp)
   | appClose c fa => exact appClose_inv i c fa
-  | abort => exact ⟨doAbort_hinv i.h, doAbort_tinv i.t, doAbort_cinv i.c⟩
-  | advance dt => exact ⟨advance_hinv dt i.h, advance_tinv dt i.t, advance_cinv dt i.c⟩
+  | cancelClose c => exact cancelClose_inv i c
+  | abort => exact doAbort_inv i
+  | advance dt => exact advance_inv dt i
 
 theorem run_inv (es : List Event) : ∀ {s : S}, Inv s → Inv (run s es) := by
   induction es with
   | nil => intro s i; exact i
   | cons e es ih => intro s i; exact ih (step_inv i e)
 
+theorem init_inv (rt pt ol : Nat) (st : Bool) (hrt : 0 < rt) (hpt : 0 < pt) : Inv (init rt pt ol st) := by
+  refine { fixed := rfl, h := ?_, t := ⟨hrt, by intro t h; cases h⟩, c := ?_, l := ?_, settled := ?_ }
+  · exact ⟨hpt, rfl, (by intro h; cases h), (by intro h; cases h), (by intro h; cases h),
+           (by intro t h; cases h)⟩
+  · exact ⟨(by intro t h; cases h), (by intro h; exact absurd rfl h), fun _ => rfl,
+           (by intro T h; cases h)⟩
+  · exact ⟨fun _ => rfl, (by intro t h; cases h), fun _ => rfl, (by intro w h; cases h),
+           (by intro a h; cases h), (by intro h; cases h), (by intro h; cases h)⟩
+  · intro h; cases h
+
 /-- every state reachable from the initial one -/
-theorem reachable_inv (rt : Nat) (st : Bool) (hrt : 0 < rt) (es : List Event) :
-    Inv (run (init rt st) es) :=
-  run_inv es (init_inv rt st hrt)
+theorem reachable_inv (rt pt ol : Nat) (st : Bool) (hrt : 0 < rt) (hpt : 0 < pt) (es : List Event) :
+    Inv (run (init rt pt ol st) es) :=
+  run_inv es (init_inv rt pt ol st hrt hpt)
 
 end Aiorpcx.C08
